@@ -15,6 +15,7 @@ func init() {
 	env.Register("C12_Bytes", C12_Bytes)
 	env.Register("C12_Mutate", C12_Mutate)
 	env.Register("C12_MutateFuture", C12_MutateFuture)
+	env.Register("C12_ElectionAfterMessage", C12_ElectionAfterMessage)
 }
 
 // C12_Mutate: a genuine message of the given kind (PREPREPARE, PREPARE, COMMIT, VIEW_CHANGE with proof,
@@ -254,4 +255,40 @@ func C12_MutateFuture() {
 	}
 	env.Assert("C12.followup_commits", len(n.commits) == 1)
 	env.Reach("C12.future.followup")
+}
+
+// C12_ElectionAfterMessage: a stored message must not poison a later step. The node holds the view-0 proposal and
+// receives one fully symbolic PREPARE or COMMIT (handled by the worker's real entry point); then its election timer
+// fires, and then a genuine NEW_VIEW of the next view arrives. Neither step may panic (the election runs in the
+// worker loop without a per-message recovery), the node must have moved on and must follow the NEW_VIEW.
+func C12_ElectionAfterMessage() {
+	me := env.Param("me") // 2 or 3
+	wd := newWorld(me, equalWeights(4))
+	n, net := wd.n, wd.net
+	wd.prefix(1)
+	var raw *interfaces.ConsensusRawMessage
+	if env.Param("kind") == 1 {
+		raw = symPrepareRaw(wd, "m")
+	} else {
+		raw, _, _, _ = symCommit(wd, "m")
+	}
+	p0 := env.Catch(func() { n.m.worker.handleRawMessage(raw) })
+	env.Assert("C12.worker.no_panic", p0 == 0)
+	p1 := env.Catch(func() { n.timeout() })
+	env.Assert("C12.election.no_panic", p1 == 0)
+	env.Assert("C12.election.moved_on", n.m.state.View() == 1)
+	// view 2 is led by member 2; if that is this node, use view 3
+	nvv := primitives.View(2)
+	if me == 2 {
+		nvv = 3
+	}
+	var votes []*interfaces.ViewChangeMessage
+	for _, i := range othersOf(me) {
+		votes = append(votes, net.vcm(i, 1, nvv, nil))
+	}
+	nv := net.nvm(int(uint64(nvv)%4), 1, nvv, votes, &stub.Block{H: 1, Tag: 0x29, ProposalOK: true})
+	p2 := env.Catch(func() { n.deliver(nv.ToConsensusRawMessage()) })
+	env.Assert("C12.new_view.no_panic", p2 == 0)
+	env.Assert("C12.new_view.followed", n.m.state.View() == nvv)
+	env.Reach("C12.election_after_message.done")
 }
